@@ -902,7 +902,7 @@ func init() {
 	// Known finding KF-D20 (not repaired: needs an ancestor check under a rename-wide lock and the update of ".." and of
 	// both parents' link counts): a directory renamed into another parent. Reproduced here so that the finding stays
 	// visible; the generators keep directory renames inside one parent.
-	Probes = append(Probes, Probe{"rename-directory-across-parents", []string{"C04", "C02"}, 0, func(p *P) {
+	Probes = append(Probes, Probe{"rename-directory-across-parents", []string{"C04", "C02", "C11"}, 0, func(p *P) {
 		x := p.Mkdir(p.Root, "x").RFh
 		y := p.Mkdir(p.Root, "y").RFh
 		p.Mkdir(x, "s")
@@ -914,6 +914,18 @@ func init() {
 		b := p.Mkdir(a, "b").RFh
 		p.Rename(p.Root, "a", b, "c") // into its own subtree: must be refused
 		p.Lookup(p.Root, "a")
+		p.S.WaitIdle()
+		p.T.Emit(TakeSnap(p.S, "run", true))
+		// the old parent of the moved directory is removed: whatever the moved directory's ".." says by now, every
+		// request must still be answered
+		sh := p.Lookup(y, "s").RFh
+		p.Rmdir(p.Root, "x")
+		p.Lookup(sh, "..")
+		p.Getattr(x)
+		p.Lookup(sh, ".")
+		p.Enumerate(sh, true, 4096, 3)
+		p.Mkdir(p.Root, "x2")
+		p.Lookup(sh, "..")
 		p.S.WaitIdle()
 		p.T.Emit(TakeSnap(p.S, "run", true))
 	}})
